@@ -9,6 +9,7 @@ import threading
 
 import vlib
 
+JVM = "-XX:ParallelGCThreads=2"   # many short TLC runs side by side: keep each JVM small
 H265_ID_OFFSET = 10_000_000     # behaviour numbers of the H.265 driver are shifted so that `t` is unique
 
 
@@ -73,7 +74,7 @@ def tlc_trace_parallel(ctx, spec, cfg, traces, nproc=10, timeout=900):
         subs.append(s)
         files.append(f)
     old = os.environ.get("JAVA_TOOL_OPTIONS")
-    os.environ["JAVA_TOOL_OPTIONS"] = "-XX:ParallelGCThreads=2"
+    os.environ["JAVA_TOOL_OPTIONS"] = JVM
     try:
         res = parallel([(lambda s=s, f=f: vlib.tlc_trace(s, spec, cfg, f, timeout=timeout, chunk=10 ** 9))
                         for s, f in zip(subs, files)])
@@ -117,13 +118,13 @@ def run_c34(ctx):
     #    every chunking; intended variant must be exact; the two as-is variants must give counterexamples
     mc_cfg = "AnnexB_MC" if quick else "AnnexB_MC_big"
     vec_cfgs = ["AnnexBVec_q"] if quick else ["AnnexBVec_t1", "AnnexBVec_t2", "AnnexBVec_t3"]
-    jobs = [lambda: vlib.tlc_model(_sub(ctx, "mc"), "AnnexB", mc_cfg, workers=4 if quick else 8),
-            lambda: vlib.tlc_expect_violation(_sub(ctx, "asis"), "AnnexB", "AnnexB_asis", workers=1),
-            lambda: vlib.tlc_expect_violation(_sub(ctx, "asis-eof"), "AnnexB", "AnnexB_asis_eof", workers=1),
-            lambda: vlib.tlc_expect_violation(_sub(ctx, "vec-asis"), "AnnexBVec", "AnnexBVec_asis", workers=1),
+    jobs = [lambda: vlib.tlc_model(_sub(ctx, "mc"), "AnnexB", mc_cfg, workers=4 if quick else 8, tool_opts=JVM),
+            lambda: vlib.tlc_expect_violation(_sub(ctx, "asis"), "AnnexB", "AnnexB_asis", workers=1, tool_opts=JVM),
+            lambda: vlib.tlc_expect_violation(_sub(ctx, "asis-eof"), "AnnexB", "AnnexB_asis_eof", workers=1, tool_opts=JVM),
+            lambda: vlib.tlc_expect_violation(_sub(ctx, "vec-asis"), "AnnexBVec", "AnnexBVec_asis", workers=1, tool_opts=JVM),
             lambda: vlib.go_build(ctx, "annexb_h264"),
             lambda: vlib.go_build(ctx, "annexb_h265")]
-    jobs += [(lambda c=c: vlib.tlc_model(_sub(ctx, c), "AnnexBVec", c, workers=1)) for c in vec_cfgs]
+    jobs += [(lambda c=c: vlib.tlc_model(_sub(ctx, c), "AnnexBVec", c, workers=1, tool_opts=JVM)) for c in vec_cfgs]
     res = parallel(jobs)
     mc, asis, asis_eof, vec_asis, bin264, bin265 = res[:6]
     vec_runs = res[6:]
@@ -241,13 +242,13 @@ def _len_for(rng, codec, ty, big, mtu):
 
 def run_c35(ctx):
     quick = ctx.quick
-    jobs = [lambda: vlib.tlc_model(_sub(ctx, "mc"), "AnnexBWriter", "AnnexBWriter_MC", workers=1),
-            lambda: vlib.tlc_expect_violation(_sub(ctx, "asis"), "AnnexBWriter", "AnnexBWriter_asis", workers=1),
-            lambda: vlib.tlc_expect_violation(_sub(ctx, "pktfix"), "AnnexBWriter", "AnnexBWriter_pktfix", workers=1),
+    jobs = [lambda: vlib.tlc_model(_sub(ctx, "mc"), "AnnexBWriter", "AnnexBWriter_MC", workers=1, tool_opts=JVM),
+            lambda: vlib.tlc_expect_violation(_sub(ctx, "asis"), "AnnexBWriter", "AnnexBWriter_asis", workers=1, tool_opts=JVM),
+            lambda: vlib.tlc_expect_violation(_sub(ctx, "pktfix"), "AnnexBWriter", "AnnexBWriter_pktfix", workers=1, tool_opts=JVM),
             lambda: vlib.go_build(ctx, "nalwriter_h264"),
             lambda: vlib.go_build(ctx, "nalwriter_h265")]
     deep = [] if quick else ["AnnexBWriter_MC_t", "AnnexBWriter_MC_t264"]
-    jobs += [(lambda c=c: vlib.tlc_model(_sub(ctx, c), "AnnexBWriter", c, workers=1, timeout=500)) for c in deep]
+    jobs += [(lambda c=c: vlib.tlc_model(_sub(ctx, c), "AnnexBWriter", c, workers=1, timeout=500, tool_opts=JVM)) for c in deep]
     res = parallel(jobs)
     mc, asis, pktfix, bin264, bin265 = res[:5]
     models = [("AnnexBWriter/AnnexBWriter_MC", mc)] + [("AnnexBWriter/" + c, r) for c, r in zip(deep, res[5:])]
